@@ -509,16 +509,11 @@ func (tx *Tx) buildListIdx(bucket string, entry *Entry) {
 func (tx *Tx) rotateActiveFile() error {
 	var err error
 	fID := tx.db.MaxFileID
-	tx.db.MaxFileID++
 
 	if !tx.db.opt.SyncEnable && tx.db.opt.RWMode == MMap {
 		if err := tx.db.ActiveFile.rwManager.Sync(); err != nil {
 			return err
 		}
-	}
-
-	if err := tx.db.ActiveFile.rwManager.Close(); err != nil {
-		return err
 	}
 
 	if tx.db.opt.EntryIdxMode == HintBPTSparseIdxMode {
@@ -563,13 +558,21 @@ func (tx *Tx) rotateActiveFile() error {
 		tx.db.ActiveCommittedTxIdsIdx = NewTree()
 	}
 
-	// reset ActiveFile
-	path := tx.db.getDataPath(tx.db.MaxFileID)
-	tx.db.ActiveFile, err = NewDataFile(path, tx.db.opt.SegmentSize, tx.db.opt.RWMode)
+	// reset ActiveFile: the old one stays in place until the new one exists,
+	// so that a failure here leaves the database usable
+	path := tx.db.getDataPath(fID + 1)
+	dataFile, err := NewDataFile(path, tx.db.opt.SegmentSize, tx.db.opt.RWMode)
 	if err != nil {
 		return err
 	}
 
+	if err := tx.db.ActiveFile.rwManager.Close(); err != nil {
+		dataFile.rwManager.Close()
+		return err
+	}
+
+	tx.db.MaxFileID = fID + 1
+	tx.db.ActiveFile = dataFile
 	tx.db.ActiveFile.fileID = tx.db.MaxFileID
 	return nil
 }
